@@ -234,6 +234,33 @@ def run(ctx, chk, tier="quick"):
             chk.ob("C09.O4", ok, where_of(f, st), "default reference index = %s" % txt, "the highest level of the curve (max of its level ids)",
                    key="%s|default-reference" % fq, why="without a reference the highest level of the curve is the origin", scope=f)
             desc["default"] = ok if (ok or not _unread(chk, ctx, f)) else None
+            # ... and it is the highest level of the curve *as stored*: the loop that stores the levels of the same mapping
+            # does not leave levels out (a `continue` on the level inside it) while the default is taken over all of them
+            if ok and isinstance(v.args[0], (ast.Call, ast.Name)):
+                base = v.args[0]
+                if isinstance(base, ast.Call) and isinstance(base.func, ast.Attribute) and base.func.attr == "keys":
+                    base = base.func.value
+                for lp in [n_ for n_ in ast.walk(f.node) if isinstance(n_, ast.For)]:
+                    it_ = lp.iter
+                    if isinstance(it_, ast.Call) and isinstance(it_.func, ast.Attribute) and it_.func.attr in ("items", "keys") and not it_.args:
+                        it_ = it_.func.value
+                    elif isinstance(it_, ast.Call) and isinstance(it_.func, ast.Name) and it_.func.id == "sorted" and it_.args:
+                        it_ = it_.args[0]
+                        if isinstance(it_, ast.Call) and isinstance(it_.func, ast.Attribute) and it_.func.attr in ("items", "keys"):
+                            it_ = it_.func.value
+                    if not (isinstance(base, ast.Name) and isinstance(it_, ast.Name) and it_.id == base.id):
+                        continue
+                    keyv = lp.target.elts[0] if isinstance(lp.target, (ast.Tuple, ast.List)) and lp.target.elts else lp.target
+                    if not isinstance(keyv, ast.Name):
+                        continue
+                    has_store = any(isinstance(c_, ast.Call) and isinstance(c_.func, ast.Attribute) and c_.func.attr in ("execute", "executemany") for c_ in ast.walk(lp))
+                    for st_ in lp.body:
+                        if isinstance(st_, ast.If) and any(isinstance(x_, ast.Continue) for b_ in st_.body for x_ in ast.walk(b_)) \
+                                and any(isinstance(x_, ast.Name) and x_.id == keyv.id for x_ in ast.walk(st_.test)) and has_store:
+                            chk.ob("C09.O4", False, where_of(f, st_), "levels are left out of the stored curve when `%s`, while the default origin is %s over all levels of %s" % (ast.unparse(st_.test)[:60], txt[:40], base.id),
+                                   "the default origin is the highest level of the curve that is stored",
+                                   key="%s|default-over-unstored-levels" % fq, local=True,
+                                   why="when the highest level of the mapping is among those left out, the curve stored ends at a lower level with a non-zero value there: without a reference the highest level of the curve is not the origin")
         else:
             # `if ref is None: ref = <default>` before one conversion ref -> index: the default goes through the conversion too
             rebound = []
